@@ -1,5 +1,6 @@
 import GtModel.Model.Proto
 import GtModel.Model.Range
+import GtModel.Model.Edits
 open Lean GtModel
 
 namespace Driver
@@ -8,7 +9,10 @@ def echo : Handler := fun j => pure j
 
 def table : List (String × Handler) := [
   ("echo", echo),
-  ("range", rangeHandler)
+  ("range", rangeHandler),
+  ("script", scriptHandler),
+  ("editmatrix", EditMatrix.editMatrixHandler),
+  ("strscript", EditMatrix.strScriptHandler)
 ]
 
 def lookup (s : String) : Option Handler := (table.find? (·.1 == s)).map (·.2)
